@@ -4,7 +4,7 @@ underflow): Parser::{loop_, break_, continue_, function, lambda, fun_body}. Ever
 alone and LOGS the loop depth at which a block / expression body is parsed."""
 UNIT = dict(
   name='parserd',
-  properties=['C15'],
+  properties=['C15', 'C01'],
   items=[
     ('laythe_core/src/object/fun.rs', ['enum FunKind']),
     ('laythe_vm/src/compiler/parser.rs', [("impl<'a> Parser<'a>", ['loop_', 'continue_', 'break_', 'fun_body', 'function', 'lambda', 'consume_arguments', 'call_params', 'call', 'method'])]),
